@@ -23,8 +23,7 @@
        (tag 3); no operation may panic or hang (tag 4).
 
     [CEvent]  process-level observations: fatal runtime error or hang of a
-       workload (tag 4), race-detector reports (tag 11 for the known finding
-       Leaf.Update || Delete, tag 5 otherwise). *)
+       workload (tag 4), race-detector reports (tag 5). *)
 From Gnmi Require Import Base.Prelude CTree.CTreeModel CTree.CTreeCheck CTree.CTreeConc CTree.LinCheck.
 Open Scope Z_scope.
 
@@ -209,7 +208,7 @@ Record cfg := CFG { cst : state; cstarted : list bool }.
 
 (** points at which a thread gives up two-phase locking (it acquires after
     having released): between Get and Value of GetLeafValue, and between the
-    children of a Query.  Together with the hook points and blocked
+    children of a Query or of a Delete.  Together with the hook points and blocked
     acquisitions these are the only places where the interleaving with other
     threads matters (every stretch between them is a sequence of acquisitions
     followed by releases, which commutes with the other threads' steps), so
@@ -217,7 +216,7 @@ Record cfg := CFG { cst : state; cstarted : list bool }.
     exactly these points. *)
 Definition yield_pc (p : pc) : bool :=
   match p with
-  | PHVal _ | PQEnter _ _ _ _ _ => true
+  | PHVal _ | PQEnter _ _ _ _ _ | PLEnter _ _ _ => true
   | _ => false
   end.
 
@@ -235,6 +234,9 @@ Definition variants (s : state) (i : nat) : list state :=
   match nth_error (thr s) i with
   | Some (TH o (PQNext acc ((x :: y :: todo) :: fr)) hs) =>
       map (fun td => ST (hp s) (set_nth (thr s) i (TH o (PQNext acc (td :: fr)) hs)))
+          (rotations_from [] (x :: y :: todo))
+  | Some (TH o (PLNext (DF n q k (x :: y :: todo) acc :: fr)) hs) =>
+      map (fun td => ST (hp s) (set_nth (thr s) i (TH o (PLNext (DF n q k td acc :: fr)) hs)))
           (rotations_from [] (x :: y :: todo))
   | _ => [s]
   end.
@@ -500,28 +502,27 @@ Definition write_excl_ok (prog : list sop) (obs : list sobs) (results : list are
   | _, _ => true
   end.
 
-(** known finding KF-C10-1 seen without the race detector: a paused
-    Leaf.Update sits inside its critical section (it owns the leaf's write
-    lock) from before a Delete was started until after that Delete returned
-    the very leaf among its removed paths -- Delete read the leaf's content
-    without the node lock. *)
-Definition kf_handle_delete (prog : list sop) (obs : list sobs) (results : list ares) (d : nat) : bool :=
+(** Delete respects node locks (defect C10_1, fixed by repo commit 3480f62): a
+    Delete must not return a leaf among its removed paths while a paused
+    Leaf.Update has been sitting inside its critical section on that very leaf
+    (owning its write lock) since before the Delete was started. *)
+Definition delete_respects_locks (prog : list sop) (obs : list sobs) (results : list ares) (d : nat) : bool :=
   match nth_error prog d, nth_error results d with
   | Some (SDelete _), Some (RsPaths removed) =>
       match first_idx (fun x => Nat.eqb (so_tid x) d) obs 0,
             first_idx (fun x => Nat.eqb (nth d (so_status x) 0%nat) 3) obs 0 with
       | Some (S a), Some b =>
-          existsb (fun w =>
+          negb (existsb (fun w =>
                      match nth_error prog w, nth_error obs a, nth_error obs b with
                      | Some (SHold p _), Some oa, Some ob =>
                          existsb (path_eqb p) removed
                          && Nat.eqb (nth w (so_status oa) 0%nat) 1
                          && Nat.eqb (nth w (so_status ob) 0%nat) 1
                      | _, _, _ => false
-                     end) (seq 0 (List.length prog))
-      | _, _ => false
+                     end) (seq 0 (List.length prog)))
+      | _, _ => true
       end
-  | _, _ => false
+  | _, _ => true
   end.
 
 Definition sched_check (prog : list sop) (obs : list sobs) (results : list ares) (final : flat)
@@ -536,8 +537,9 @@ Definition sched_check (prog : list sop) (obs : list sobs) (results : list ares)
          (filter (fun k => negb (get_coupling_ok prog obs k)) (seq 0 (List.length obs)))
   ++ map (fun w => (w, 7%N))
          (filter (fun w => negb (write_excl_ok prog obs results w)) (seq 0 (List.length prog)))
-  ++ map (fun d => (d, 11%N))
-         (filter (kf_handle_delete prog obs results) (seq 0 (List.length prog)))
+  ++ map (fun d => (d, 8%N))
+         (filter (fun d => negb (delete_respects_locks prog obs results d)) (seq 0 (List.length prog)))
+
   ++ window_check [] (sched_history prog obs results) final.
 
 (** ** cases *)
@@ -559,7 +561,7 @@ Definition check_case (c : c10case) : list (nat * N) :=
                then [] else [(0%nat, 2%N)]
       | _ => [(0%nat, 4%N)]
       end
-  | CEvent 3%N => [(0%nat, 11%N)]
+  | CEvent 3%N => [(0%nat, 5%N)]
   | CEvent 4%N => [(0%nat, 5%N)]
   | CEvent 0%N => []
   | CEvent _ => [(0%nat, 4%N)]
